@@ -44,11 +44,19 @@ Definition the_fail : failcode :=
 Definition is_try : bool :=
   match st with SUnfold _ _ _ t | SEmit _ _ _ t | SMap _ _ t | SFMap _ _ t => t | _ => false end.
 
-(* Unfold (fail-fast): seed, f seed, ... ; the value on which f fails is still delivered, then its error *)
-Fixpoint unfold_vals (f : fcode) (fl : failcode) (n : nat) (x : Z) : list Z :=
-  match n with O => [] | S m => x :: (if fails fl x then [] else unfold_vals f fl m (fapply f x)) end.
-Fixpoint unfold_errs (f : fcode) (fl : failcode) (n : nat) (x : Z) : list Z :=
-  match n with O => [] | S m => if fails fl x then [err_of x] else unfold_errs f fl m (fapply f x) end.
+(* Unfold: seed, f seed, ... ; the value on which f fails is still delivered, then its error; fail-fast stops there,
+   try-and-continue goes on from what f returned with the error (a failing coded function returns the zero value) *)
+Fixpoint unfold_vals (f : fcode) (fl : failcode) (try : bool) (n : nat) (x : Z) : list Z :=
+  match n with
+  | O => []
+  | S m => x :: (if fails fl x then (if try then unfold_vals f fl try m 0 else []) else unfold_vals f fl try m (fapply f x))
+  end.
+Fixpoint unfold_errs (f : fcode) (fl : failcode) (try : bool) (n : nat) (x : Z) : list Z :=
+  match n with
+  | O => []
+  | S m => if fails fl x then err_of x :: (if try then unfold_errs f fl try m 0 else [])
+           else unfold_errs f fl try m (fapply f x)
+  end.
 
 (* Emit: indices 0,1,2,.. ; (index, value) of the successes, errors of the failures; fail-fast stops at the first failure *)
 Fixpoint emit_idx (fl : failcode) (try : bool) (fuel : nat) (i : Z) : list Z :=
@@ -64,8 +72,8 @@ Fixpoint emit_errs (fl : failcode) (try : bool) (fuel : nat) (i : Z) : list Z :=
 
 Definition gen_vals (k : nat) (n : nat) : list Z :=
   match st, k with
-  | SUnfold seed f fl _, 0%nat => unfold_vals f fl n seed
-  | SUnfold seed f fl _, _ => unfold_errs f fl n seed
+  | SUnfold seed f fl t, 0%nat => unfold_vals f fl t n seed
+  | SUnfold seed f fl t, _ => unfold_errs f fl t n seed
   | SEmit _ f fl try, 0%nat => map (fapply f) (emit_idx fl try n 0)
   | SEmit _ f fl try, _ => emit_errs fl try n 0
   | _, _ => []
@@ -153,7 +161,19 @@ Definition c06_ok : bool :=
    then Nat.eqb live_at_end 0 && outputs_closed ms else true).
 
 (* ---------- C07 ---------- *)
+(* fail-fast: once the error has been received the goroutine has returned and closed both channels - "closes both
+   channels without processing anything further", whether the input is closed or not: no receive blocks any more *)
+Fixpoint no_block_after_err (seen : bool) (l : list (move * outcome)) : bool :=
+  match l with
+  | [] => true
+  | (MRecv 1, OVal _) :: r => no_block_after_err true r
+  | (MRecv _, OBlocked) :: r => negb seen && no_block_after_err seen r
+  | _ :: r => no_block_after_err seen r
+  end.
+Definition failfast_stage : bool :=
+  match st with SMap _ _ false | SFMap _ _ false | SUnfold _ _ _ false | SEmit _ _ _ false => true | _ => false end.
 Definition c07_ok : bool :=
+  (if failfast_stage then no_block_after_err false ms else true) &&
   negb (crashed c) &&
   forallb prefix_ok (seq 0 nobs) &&
   (if cancelled_run then true else
